@@ -23,6 +23,19 @@ def search(ctx, broken):
     return found
 
 
+def replay_finding(ctx, f):
+    """F24: the scripted history ends the implementation's process (logger.Fatalf in dataStore.flush) when a client write
+    rotates into a file that a GC pass filled above the head; it is run in its own harness process."""
+    import os
+    from lib import vlib
+    if not f.get("abort_script"):
+        return None
+    out = os.path.join(ctx.work, "finding_%s.jsonl" % f.get("id"))
+    rc, o = vlib.harness(["l2script", "-out", out, os.path.join(vlib.VERIF, f["abort_script"])], timeout=600)
+    ctx.logf("finding", f.get("id"), "script rc", rc, o[-200:])
+    return rc != 0 and f.get("abort_text", "") in o
+
+
 def replay(ctx, path):
     c01.PID, c01.MODE = PID, MODE
     return c01.replay(ctx, path)
